@@ -26,9 +26,7 @@ Conventions
   Likewise the Builder writes the 12 header bytes only in `Finish`.
 * The compression map (`map[string]uint16`) is an association list with
   newest-first lookup (Go only inserts on a miss, so no key is ever updated).
-Not modelled: the Builder's section state machine (ErrNotStarted /
-ErrSectionDone) and a Builder that is used further after a failed call,
-`GoString`, SetParam/GetParam/DeleteParam, nil ResourceBody.
+Not modelled: `GoString`, SetParam/GetParam/DeleteParam, nil ResourceBody.
 -/
 namespace NetVerif.Model.Dns
 
@@ -39,6 +37,7 @@ inductive Err
   | resourceLen | segTooLong | nameTooLong | zeroSegLen | resTooLong
   | tooManyQuestions | tooManyAnswers | tooManyAuthorities | tooManyAdditionals
   | nonCanonical | stringTooLong | paramOutOfOrder | tooLongSVCBValue
+  | notStarted | sectionDone
   | fuel
   deriving DecidableEq, Repr, Inhabited
 
@@ -53,6 +52,7 @@ def Err.tag : Err → String
   | .tooManyAuthorities => "TooManyAuthorities" | .tooManyAdditionals => "TooManyAdditionals"
   | .nonCanonical => "NonCanonical" | .stringTooLong => "StringTooLong"
   | .paramOutOfOrder => "ParamOutOfOrder" | .tooLongSVCBValue => "TooLongSVCBValue"
+  | .notStarted => "NotStarted" | .sectionDone => "SectionDone"
   | .fuel => "MODEL-FUEL"
 
 /-! ## Constants (tied to the Go source by `Gen/C36.lean`) -/
@@ -523,6 +523,17 @@ def svcbPass2 (msg : Bytes) : List (Nat × Nat × Nat) → Except Err (List (Nat
       | .ok ps => .ok ((key, (msg.drop voff).take size) :: ps)
       | .error e => .error e
 
+/-- the loop in `unpackSVCBResource` that rejects a compressed TargetName: walks the labels
+stored in place between the start of the name and the offset after it -/
+def targetCompressed (msg : Bytes) : Nat → Nat → Nat → Bool
+  | 0, _, _ => false
+  | fuel + 1, i, stop =>
+    if i < stop then
+      match msg.drop i with
+      | [] => false
+      | c :: _ => if c / 64 = 3 then true else targetCompressed msg fuel (i + 1 + c) stop
+    else false
+
 def unpackSVCB (msg : Bytes) (off length : Nat) : Except Err (Nat × Bytes × List (Nat × Bytes)) :=
   match u16At msg off with
   | .error e => .error e
@@ -530,6 +541,7 @@ def unpackSVCB (msg : Bytes) (off length : Nat) : Except Err (Nat × Bytes × Li
     match unpackName msg off1 with
     | .error e => .error e
     | .ok (target, off2) =>
+      if targetCompressed msg (off2 + 1) off1 off2 then .error .invalidPtr else
       match svcbPass1 msg (off + length) (msg.length + 1) off2 none with
       | .error e => .error e
       | .ok l =>
@@ -749,6 +761,136 @@ def skipMessage (msg : Bytes) : Except Err Nat :=
         match skipResources msg w.nu o2 with
         | .error e => .error e
         | .ok o3 => skipResources msg w.nr o3
+
+/-! ## The Builder -/
+
+/-- What a failed `Name.pack` leaves in the compression map (Go mutates the map in place, and the
+Builder keeps using it after a failed call): the map at the point where the loop stopped. -/
+def packLoopMap (buf : Bytes) : Bytes → Bytes → Bytes → Option CompMap → Option CompMap
+  | [], _, _, comp => comp
+  | c :: rest, lab, out, comp =>
+    if c = 46 then
+      if lab.length ≥ 64 then comp
+      else if lab.length = 0 then comp
+      else packLoopMap buf rest [] (out ++ lab.length :: lab) comp
+    else if lab.isEmpty then
+      match comp with
+      | some m =>
+        let newPtr := buf.length + out.length
+        let m' := if newPtr ≤ 16383 then (c :: rest, newPtr) :: m else m
+        match lookup (c :: rest) m with
+        | some p =>
+          if compressionDepth (buf ++ out) p < 10 then some m
+          else packLoopMap buf rest [c] out (some m')
+        | none => packLoopMap buf rest [c] out (some m')
+      | none => packLoopMap buf rest [c] out none
+    else packLoopMap buf rest (lab ++ [c]) out comp
+
+/-- the compression map after `Name.pack`, whether it succeeded or not -/
+def packNameMap (name : Bytes) (buf : Bytes) (comp : Option CompMap) : Option CompMap :=
+  if name.length > 254 then comp
+  else if name.isEmpty || name.getLast? != some 46 then comp
+  else if name = [46] then comp
+  else packLoopMap buf name [] [] comp
+
+/-- the compression map after `ResourceBody.pack`, whether it succeeded or not -/
+def packBodyMap (b : Body) (buf : Bytes) (comp : Option CompMap) : Option CompMap :=
+  match b with
+  | .ns n => packNameMap n buf comp
+  | .cname n => packNameMap n buf comp
+  | .ptr n => packNameMap n buf comp
+  | .mx pref n => packNameMap n (buf ++ u16 pref) comp
+  | .soa ns mbox .. =>
+    match packName ns buf comp with
+    | .error _ => packNameMap ns buf comp
+    | .ok (b1, c1) => packNameMap mbox (buf ++ b1) c1
+  | _ => comp
+
+/-- `Builder`: `msg` is `b.msg[b.start:]` (the 12 header bytes stay zero until `Finish`),
+`sec` the `section` (0 not started, 1 header, 2 questions, 3 answers, 4 authorities,
+5 additionals, 6 done), then the header under construction and the compression map. -/
+structure Builder where
+  msg : Bytes
+  sec : Nat
+  id : Nat
+  bits : Nat
+  nq : Nat
+  na : Nat
+  nu : Nat
+  nr : Nat
+  comp : Option CompMap
+  deriving DecidableEq, Repr, Inhabited
+
+/-- `NewBuilder(buf, h)` -/
+def newBuilder (h : Header) : Builder :=
+  { msg := List.replicate 12 0, sec := 1, id := h.id % 65536, bits := h.bits, nq := 0, na := 0, nu := 0, nr := 0,
+    comp := none }
+
+inductive BOp
+  | enableCompression
+  | start (s : Nat)          -- StartQuestions (2) … StartAdditionals (5)
+  | question (q : Question)
+  | resource (r : Resource)  -- the typed XResource method of the body
+  | finish
+  deriving DecidableEq, Repr, Inhabited
+
+/-- `incrementSectionCount` -/
+def Builder.incr (b : Builder) : Except Err Builder :=
+  if b.sec = 2 then (if b.nq = 65535 then .error .tooManyQuestions else .ok { b with nq := b.nq + 1 })
+  else if b.sec = 3 then (if b.na = 65535 then .error .tooManyAnswers else .ok { b with na := b.na + 1 })
+  else if b.sec = 4 then (if b.nu = 65535 then .error .tooManyAuthorities else .ok { b with nu := b.nu + 1 })
+  else (if b.nr = 65535 then .error .tooManyAdditionals else .ok { b with nr := b.nr + 1 })
+
+/-- One Builder call: the new state and the error it returned, if any. A failed call leaves
+`msg`, the section and the counters alone - but not the compression map, which `Name.pack` has
+already updated in place. -/
+def Builder.step (b : Builder) : BOp → Builder × Option Err
+  | .enableCompression => ({ b with comp := some [] }, none)
+  | .start s =>
+    if b.sec ≤ 0 then (b, some .notStarted)
+    else if b.sec > s then (b, some .sectionDone)
+    else ({ b with sec := s }, none)
+  | .question q =>
+    if b.sec < 2 then (b, some .notStarted)
+    else if b.sec > 2 then (b, some .sectionDone)
+    else
+      match packQuestion q b.msg b.comp with
+      | .error e => ({ b with comp := packNameMap q.name b.msg b.comp }, some e)
+      | .ok (bs, c) =>
+        match ({ b with comp := c } : Builder).incr with
+        | .error e => ({ b with comp := c }, some e)
+        | .ok b' => ({ b' with msg := b.msg ++ bs }, none)
+  | .resource r =>
+    if b.sec < 3 then (b, some .notStarted)
+    else if b.sec > 5 then (b, some .sectionDone)
+    else
+      match packName r.hdr.name b.msg b.comp with
+      | .error e => ({ b with comp := packNameMap r.hdr.name b.msg b.comp }, some e)
+      | .ok (nb, c1) =>
+        let pre := b.msg ++ nb ++ u16 r.body.realType ++ u16 r.hdr.cls ++ u32 r.hdr.ttl ++ u16 r.hdr.length
+        match packBody r.body pre c1 with
+        | .error e => ({ b with comp := packBodyMap r.body pre c1 }, some e)
+        | .ok (_, c2) =>
+          match packResource r b.msg b.comp with
+          | .error e => ({ b with comp := c2 }, some e)
+          | .ok (bs, c) =>
+            match ({ b with comp := c } : Builder).incr with
+            | .error e => ({ b with comp := c }, some e)
+            | .ok b' => ({ b' with msg := b.msg ++ bs }, none)
+  | .finish =>
+    if b.sec < 1 then (b, some .notStarted) else ({ b with sec := 6 }, none)
+
+/-- the bytes `Finish` returns: the header is written over the 12 reserved bytes -/
+def Builder.bytes (b : Builder) : Bytes :=
+  u16 b.id ++ u16 b.bits ++ u16 b.nq ++ u16 b.na ++ u16 b.nu ++ u16 b.nr ++ b.msg.drop 12
+
+/-- a call sequence: per-call errors, final state -/
+def Builder.run (b : Builder) : List BOp → Builder × List (Option Err)
+  | [] => (b, [])
+  | op :: ops =>
+    let (b1, e) := b.step op
+    let (b2, es) := b1.run ops
+    (b2, e :: es)
 
 /-! ## The record-level Parser API -/
 
